@@ -80,6 +80,7 @@ type FuncReport struct {
 	NLoops   int
 	Trusted  []string
 	File     string
+	Lemmas   []string
 }
 
 // verifyFunc encodes one function and returns its obligations (unsolved).
@@ -136,6 +137,10 @@ func verifyFuncHook(w *World, key string, hook func(*Enc)) (rep *FuncReport) {
 		rep.Trusted = append(rep.Trusted, t)
 	}
 	sort.Strings(rep.Trusted)
+	for l := range e.usedLemmas {
+		rep.Lemmas = append(rep.Lemmas, l)
+	}
+	sort.Strings(rep.Lemmas)
 	rep.Status = "ok"
 	return
 }
@@ -177,6 +182,7 @@ func main() {
 	for _, key := range strings.Split(*fns, ",") {
 		rep := verifyFunc(w, key)
 		fmt.Printf("== %s: %s %s (%d obligations)\n", key, rep.Status, rep.Reason, len(rep.Obs))
+		rep.Obs = append(rep.Obs, proveLemmas(w, rep.Lemmas)...)
 		solveAll(rep.Obs, dir, *secs, false, 8)
 		for _, o := range rep.Obs {
 			ok := o.Status == "unsat"
